@@ -27,11 +27,11 @@ theorem upd_id {β} (k : Str) (f : Option β → β) : ∀ (l : List (Str × β)
       simp [upd, hk, upd_id k f rest v h hf]
 
 /-- the leaf `_translations[l][p][f]` -/
-def valAt (T : Table) (l p f : Str) : Option Bool :=
+def valAt (T : Table) (l p f : Str) : Option Str :=
   (lookup l T).bind fun ps => (lookup p ps).bind fun fs => lookup f fs
 
 /-- the table already holds what the entry assigns -/
-def Has (T : Table) (e : Ent) : Prop := valAt T e.lang e.path e.form = some e.dash
+def Has (T : Table) (e : Ent) : Prop := valAt T e.lang e.path e.form = some e.text
 
 theorem ins_id {T : Table} {e : Ent} (h : Has T e) : ins T e = T := by
   unfold Has valAt at h
@@ -47,7 +47,7 @@ theorem ins_id {T : Table} {e : Ent} (h : Has T e) : ins T e = T := by
       simp only [Option.getD_some]
       apply upd_id _ _ _ fs h2
       simp only [Option.getD_some]
-      exact upd_id _ _ _ e.dash h rfl
+      exact upd_id _ _ _ e.text h rfl
 
 theorem foldl_ins_id : ∀ (es : List Ent) (T : Table), (∀ e ∈ es, Has T e) → es.foldl ins T = T
   | [], _, _ => rfl
@@ -56,7 +56,7 @@ theorem foldl_ins_id : ∀ (es : List Ent) (T : Table), (∀ e ∈ es, Has T e) 
     rw [ins_id (h e (List.mem_cons_self ..))]
     exact foldl_ins_id es T fun e' he' => h e' (List.mem_cons_of_mem _ he')
 
-theorem valAt_ins_self (T : Table) (e : Ent) : valAt (ins T e) e.lang e.path e.form = some e.dash := by
+theorem valAt_ins_self (T : Table) (e : Ent) : valAt (ins T e) e.lang e.path e.form = some e.text := by
   simp [valAt, ins, lookup_upd]
 
 theorem valAt_ins_other (T : Table) (e : Ent) (l p f : Str)
@@ -88,10 +88,10 @@ theorem valAt_ins_other (T : Table) (e : Ent) (l p f : Str)
 
 /-- no leaf is assigned two different values by the entry list -/
 def NoConflict (es : List Ent) : Prop :=
-  ∀ e ∈ es, ∀ e' ∈ es, e.lang = e'.lang → e.path = e'.path → e.form = e'.form → e.dash = e'.dash
+  ∀ e ∈ es, ∀ e' ∈ es, e.lang = e'.lang → e.path = e'.path → e.form = e'.form → e.text = e'.text
 
 theorem has_preserved {e : Ent} : ∀ (xs : List Ent) (T : Table), Has T e →
-    (∀ e' ∈ xs, e.lang = e'.lang → e.path = e'.path → e.form = e'.form → e.dash = e'.dash) →
+    (∀ e' ∈ xs, e.lang = e'.lang → e.path = e'.path → e.form = e'.form → e.text = e'.text) →
     Has (xs.foldl ins T) e
   | [], _, h, _ => h
   | x :: xs, T, h, hc => by
@@ -131,8 +131,8 @@ theorem lookup_eq_find {β} (k : Str) : ∀ (l : List (Str × β)),
     · simp [lookup, hk]
     · simp [lookup, hk, lookup_eq_find k rest]
 
-theorem lookup_keep (f : Str) (d : Bool) : ∀ (cs : List (Str × Unit)) (fs : Forms), lookup f fs = some d →
-    lookup f (cs.foldl (fun fs c => upd c.1 (fun o3 => o3.getD true) fs) fs) = some d
+theorem lookup_keep (f : Str) (d : Str) : ∀ (cs : List (Str × Unit)) (fs : Forms), lookup f fs = some d →
+    lookup f (cs.foldl (fun fs c => upd c.1 (fun o3 => o3.getD dashStr) fs) fs) = some d
   | [], _, h => h
   | c :: cs, fs, h => by
     simp only [List.foldl_cons]
@@ -142,7 +142,7 @@ theorem lookup_keep (f : Str) (d : Bool) : ∀ (cs : List (Str × Unit)) (fs : F
     · subst hf; simp [h]
     · simp [hf, h]
 
-theorem padLang_keep (p f : Str) (d : Bool) : ∀ (P : List (Str × List (Str × Unit))) (ps : Paths),
+theorem padLang_keep (p f : Str) (d : Str) : ∀ (P : List (Str × List (Str × Unit))) (ps : Paths),
     (∃ fs, lookup p ps = some fs ∧ lookup f fs = some d) →
     ∃ fs, lookup p (padLang P ps) = some fs ∧ lookup f fs = some d
   | [], _, h => h
@@ -177,7 +177,7 @@ theorem has_pad (lists : List CList) {T : Table} {e : Ent} (h : Has T e) : Has (
     | none => simp [h2] at h
     | some fs =>
       simp only [h2, Option.bind_some] at h
-      obtain ⟨fs', hp, hf⟩ := padLang_keep e.path e.form e.dash (allPathsC lists T) ps ⟨fs, h2, h⟩
+      obtain ⟨fs', hp, hf⟩ := padLang_keep e.path e.form e.text (allPathsC lists T) ps ⟨fs, h2, h⟩
       simp [hp, hf]
 
 /-- **Re-running `_setup_translations` and `_setup_media` on the padded table of the first `xml()`
@@ -214,14 +214,14 @@ theorem upd_comm {β} {k1 k2 : Str} (hne : k1 ≠ k2) (f g : Option β → β) :
         simp [upd, hk1, hk2, upd_comm hne f g rest h1' h2']
 
 /-- the entries of the generated choice: label `{lang: "Other" for lang in <set>}`, in set order -/
-def otherEntries (id : Str) (langs : List Str) : List Ent := langs.map fun l => ⟨l, id, "long".toList, false⟩
+def otherEntries (id : Str) (langs : List Str) : List Ent := langs.map fun l => ⟨l, id, "long".toList, "Other".toList⟩
 
 theorem keys_ins (T : Table) (e : Ent) (a : Str) : a ∈ keys T → a ∈ keys (ins T e) := by
   intro h; unfold ins; rw [mem_keys_upd]; exact Or.inl h
 
 theorem ins_comm_langs (T : Table) (id : Str) {l1 l2 : Str} (h1 : l1 ∈ keys T) (h2 : l2 ∈ keys T) :
-    ins (ins T ⟨l1, id, "long".toList, false⟩) ⟨l2, id, "long".toList, false⟩
-      = ins (ins T ⟨l2, id, "long".toList, false⟩) ⟨l1, id, "long".toList, false⟩ := by
+    ins (ins T ⟨l1, id, "long".toList, "Other".toList⟩) ⟨l2, id, "long".toList, "Other".toList⟩
+      = ins (ins T ⟨l2, id, "long".toList, "Other".toList⟩) ⟨l1, id, "long".toList, "Other".toList⟩ := by
   by_cases hne : l1 = l2
   · subst hne; rfl
   · unfold ins
@@ -330,8 +330,8 @@ theorem mem_keys_unionForms (acc : List (Str × Unit)) (fs : Forms) (c : Str) :
   exact mem_keys_foldl_upd (fun _ _ => ()) fs acc c
 
 theorem mem_keys_keepForms (cs : List (Str × Unit)) (fs : Forms) (c : Str) :
-    c ∈ keys (cs.foldl (fun fs c => upd c.1 (fun o3 => o3.getD true) fs) fs) ↔ c ∈ keys fs ∨ c ∈ keys cs :=
-  mem_keys_foldl_upd (fun _ o3 => o3.getD true) cs fs c
+    c ∈ keys (cs.foldl (fun fs c => upd c.1 (fun o3 => o3.getD dashStr) fs) fs) ↔ c ∈ keys fs ∨ c ∈ keys cs :=
+  mem_keys_foldl_upd (fun _ o3 => o3.getD dashStr) cs fs c
 
 theorem allPaths_flat (T : Table) (acc : List (Str × List (Str × Unit))) :
     T.foldl (fun acc lps => lps.2.foldl (fun a pf => upd pf.1 (fun o => unionForms (o.getD []) pf.2) a) acc) acc
@@ -438,7 +438,7 @@ theorem padLang_sound (P : List (Str × List (Str × Unit))) (ps : Paths) : ∀ 
     (∃ pf0 ∈ ps, pf0.1 = pf.1 ∧ c ∈ keys pf0.2) ∨ (∃ pc ∈ P, pc.1 = pf.1 ∧ c ∈ keys pc.2) := by
   unfold padLang
   apply foldl_upd_inv (fun pc : Str × List (Str × Unit) => pc.1)
-    (fun pc o => pc.2.foldl (fun fs c => upd c.1 (fun o3 => o3.getD true) fs) (o.getD []))
+    (fun pc o => pc.2.foldl (fun fs c => upd c.1 (fun o3 => o3.getD dashStr) fs) (o.getD []))
     (fun p fs => ∀ c ∈ keys fs, (∃ pf0 ∈ ps, pf0.1 = p ∧ c ∈ keys pf0.2) ∨ (∃ pc ∈ P, pc.1 = p ∧ c ∈ keys pc.2))
   · intro kv hkv c hc; exact Or.inl ⟨kv, hkv, rfl, hc⟩
   · intro pc hpc o ho c hc
@@ -454,14 +454,14 @@ theorem padLang_complete (P : List (Str × List (Str × Unit))) (ps : Paths) {pc
     ∃ fs, lookup pc.1 (padLang P ps) = some fs ∧ c ∈ keys fs := by
   unfold padLang
   apply foldl_upd_est (fun pc : Str × List (Str × Unit) => pc.1)
-    (fun pc o => pc.2.foldl (fun fs c => upd c.1 (fun o3 => o3.getD true) fs) (o.getD []))
+    (fun pc o => pc.2.foldl (fun fs c => upd c.1 (fun o3 => o3.getD dashStr) fs) (o.getD []))
     (fun fs => c ∈ keys fs) pc.1
   · intro x _ _ v hv
     rw [mem_keys_keepForms]; exact Or.inl (by simpa using hv)
   · exact ⟨pc, hpc, rfl, fun o => by rw [mem_keys_keepForms]; exact Or.inr hc⟩
 
 theorem keepForms_id : ∀ (cs : List (Str × Unit)) (fs : Forms), (∀ c ∈ cs, c.1 ∈ keys fs) →
-    cs.foldl (fun fs c => upd c.1 (fun o3 => o3.getD true) fs) fs = fs
+    cs.foldl (fun fs c => upd c.1 (fun o3 => o3.getD dashStr) fs) fs = fs
   | [], _, _ => rfl
   | c :: cs, fs, h => by
     simp only [List.foldl_cons]
@@ -538,14 +538,14 @@ theorem itext_block_idempotent (dl : Str) (lists : List CList) (es : List Ent) (
   rw [itext_setup_idempotent lists es hn]
 
 def demoEnts : List Ent :=
-  [⟨"en".toList, "yn-0".toList, "long".toList, false⟩, ⟨"fr".toList, "yn-0".toList, "long".toList, false⟩,
-   ⟨"en".toList, "/d/q:label".toList, "long".toList, false⟩, ⟨"en".toList, "/d/q:hint".toList, "guidance".toList, false⟩,
-   ⟨"fr".toList, "/d/q:label".toList, "image".toList, false⟩, ⟨"en".toList, "/d/q:label".toList, "long".toList, false⟩]
+  [⟨"en".toList, "yn-0".toList, "long".toList, "txt".toList⟩, ⟨"fr".toList, "yn-0".toList, "long".toList, "txt".toList⟩,
+   ⟨"en".toList, "/d/q:label".toList, "long".toList, "txt".toList⟩, ⟨"en".toList, "/d/q:hint".toList, "guidance".toList, "txt".toList⟩,
+   ⟨"fr".toList, "/d/q:label".toList, "image".toList, "txt".toList⟩, ⟨"en".toList, "/d/q:label".toList, "long".toList, "txt".toList⟩]
 
 instance : Decidable (NoConflict demoEnts) := by unfold NoConflict; infer_instance
 example : NoConflict demoEnts := by decide
 -- the padded table really has padding (French lacks the guidance hint and the label text):
-example : valAt (pad [] (setup demoEnts)) "fr".toList "/d/q:hint".toList "guidance".toList = some true := by decide
+example : valAt (pad [] (setup demoEnts)) "fr".toList "/d/q:hint".toList "guidance".toList = some dashStr := by decide
 example : pad [] (demoEnts.foldl ins (pad [] (setup demoEnts))) = pad [] (setup demoEnts) := by rfl
 -- or_other: French and English both have a translation before the generated choice is reached
 example : setup (demoEnts ++ otherEntries "yn-1".toList ["fr".toList, "en".toList] ++ [])
